@@ -162,6 +162,69 @@ func loopsOverField(info *types.Info, body ast.Node, typ, field string) []fieldL
 	return out
 }
 
+// topLevelCalls lists the calls that are a top-level statement of the block: the right-hand side of an
+// assignment, an expression statement, or a returned value (so: executed on every path reaching them that
+// did not leave the block earlier).
+func topLevelCalls(body *ast.BlockStmt) []*ast.CallExpr {
+	var out []*ast.CallExpr
+	add := func(e ast.Expr) {
+		if ce, ok := ast.Unparen(e).(*ast.CallExpr); ok {
+			out = append(out, ce)
+		}
+	}
+	for _, st := range body.List {
+		switch s := st.(type) {
+		case *ast.AssignStmt:
+			for _, r := range s.Rhs {
+				add(r)
+			}
+		case *ast.ExprStmt:
+			add(s.X)
+		case *ast.ReturnStmt:
+			for _, r := range s.Results {
+				add(r)
+			}
+		case *ast.DeclStmt:
+			if gd, ok := s.Decl.(*ast.GenDecl); ok {
+				for _, sp := range gd.Specs {
+					if vs, ok := sp.(*ast.ValueSpec); ok {
+						for _, v := range vs.Values {
+							add(v)
+						}
+					}
+				}
+			}
+		}
+	}
+	return out
+}
+
+func paramObjs(info *types.Info, d *ast.FuncDecl) []types.Object {
+	var out []types.Object
+	for _, f := range d.Type.Params.List {
+		for _, n := range f.Names {
+			out = append(out, info.Defs[n])
+		}
+		if len(f.Names) == 0 {
+			out = append(out, nil)
+		}
+	}
+	return out
+}
+
+func callsInAny(info *types.Info, n ast.Node, pred func(*types.Func) bool) []*ast.CallExpr {
+	var out []*ast.CallExpr
+	ast.Inspect(n, func(x ast.Node) bool {
+		if ce, ok := x.(*ast.CallExpr); ok {
+			if f := core.Callee(info, ce); f != nil && pred(f.Origin()) {
+				out = append(out, ce)
+			}
+		}
+		return true
+	})
+	return out
+}
+
 // X1: every model that belongs to the package is validated: the package itself, every
 // listed previous version, and (through flattening) every imported package.
 func ruleAllModelsValidated(c *core.Ctx) {
@@ -191,7 +254,45 @@ func ruleAllModelsValidated(c *core.Ctx) {
 		}
 		return false
 	}
-	for _, ce := range callsIn(info, vpd.Body, val) {
+	// wrappers: a function of the package whose body calls a validator as a top-level statement validates; one
+	// that hands its *PackageInfo parameter to a parser as a top-level statement parses that package
+	validators := map[*types.Func]bool{val: true}
+	parsers := map[*types.Func]int{paf: 0} // function -> index of the package parameter
+	for changed := true; changed; {
+		changed = false
+		for _, d := range c.AllDecls() {
+			if c.DeclPkg(d) != p || d.Body == nil || d.Recv != nil {
+				continue
+			}
+			f, _ := info.Defs[d.Name].(*types.Func)
+			if f == nil {
+				continue
+			}
+			for _, ce := range topLevelCalls(d.Body) {
+				callee := core.Callee(info, ce)
+				if callee == nil {
+					continue
+				}
+				if validators[callee.Origin()] && !validators[f] && f != vp {
+					validators[f] = true
+					changed = true
+				}
+				if ix, isParser := parsers[callee.Origin()]; isParser && ix < len(ce.Args) {
+					if _, done := parsers[f]; !done && f != vp {
+						if id, ok := ast.Unparen(ce.Args[ix]).(*ast.Ident); ok {
+							for i, prm := range paramObjs(info, d) {
+								if info.Uses[id] == prm {
+									parsers[f] = i
+									changed = true
+								}
+							}
+						}
+					}
+				}
+			}
+		}
+	}
+	for _, ce := range callsInAny(info, vpd.Body, func(f *types.Func) bool { return validators[f] }) {
 		if !inLoop(ce) {
 			top++
 		}
@@ -201,9 +302,10 @@ func ruleAllModelsValidated(c *core.Ctx) {
 	if len(loops) == 1 {
 		l := loops[0]
 		okParse := false
-		for _, ce := range callsIn(info, l.Body, paf) {
-			if len(ce.Args) == 1 {
-				if se, ok := ast.Unparen(ce.Args[0]).(*ast.SelectorExpr); ok && se.Sel.Name == "Package" && l.IsElem(se.X) {
+		for _, ce := range callsInAny(info, l.Body, func(f *types.Func) bool { _, ok := parsers[f]; return ok }) {
+			ix := parsers[core.Callee(info, ce).Origin()]
+			if ix < len(ce.Args) {
+				if se, ok := ast.Unparen(ce.Args[ix]).(*ast.SelectorExpr); ok && se.Sel.Name == "Package" && l.IsElem(se.X) {
 					okParse = true
 				}
 			}
@@ -211,13 +313,9 @@ func ruleAllModelsValidated(c *core.Ctx) {
 		c.Check(okParse, rule, "validatePackage/versions/parseAndFlattenNamespaces(version.Package)", l.Pos(), "each version's package is parsed and flattened", "the version loop does not parse version.Package")
 		// dsl.Validate in the loop, unconditionally (not nested in an if/switch inside the loop body)
 		uncond := false
-		for _, st := range l.Body.List {
-			if as, ok := st.(*ast.AssignStmt); ok && len(as.Rhs) == 1 {
-				if ce, ok := as.Rhs[0].(*ast.CallExpr); ok {
-					if f := core.Callee(info, ce); f != nil && f.Origin() == val {
-						uncond = true
-					}
-				}
+		for _, ce := range topLevelCalls(l.Body) {
+			if f := core.Callee(info, ce); f != nil && validators[f.Origin()] {
+				uncond = true
 			}
 		}
 		c.Check(uncond, rule, "validatePackage/versions/dsl.Validate", l.Pos(), "each version is validated unconditionally in the loop body", "dsl.Validate is not called as a top-level statement of the version loop (a conditional or missing validation lets an invalid previous version through)")
